@@ -44,6 +44,16 @@ pub struct AttachedTo(pub Entity);
 #[relationship_target(relationship = AttachedTo)]
 pub struct Attachments(Vec<Entity>);
 
+/// A replicated *linked* relationship: despawning the owner despawns what it owns - on the server,
+/// and on every client that mirrors the relationship (there the despawn records of the owned
+/// entities then find their client entities already gone).
+#[derive(Component, Serialize, Deserialize, Clone, PartialEq, Debug)]
+#[relationship(relationship_target = Owns)]
+pub struct OwnedBy(pub Entity);
+#[derive(Component, Clone, PartialEq, Debug, Default)]
+#[relationship_target(relationship = OwnedBy, linked_spawn)]
+pub struct Owns(Vec<Entity>);
+
 /// Only registered by the "wrong protocol" client build.
 #[derive(Component, Serialize, Deserialize, Clone, PartialEq, Debug)]
 pub struct Extra(pub u32);
@@ -56,7 +66,7 @@ pub struct Follows(pub Entity);
 #[relationship_target(relationship = Follows)]
 pub struct FollowedBy(Vec<Entity>);
 
-pub const NK: usize = 9;
+pub const NK: usize = 10;
 pub const K_VA: usize = 0;
 pub const K_VB: usize = 1;
 pub const K_SEC: usize = 2;
@@ -66,7 +76,8 @@ pub const K_ONCE: usize = 5;
 pub const K_PER: usize = 6;
 pub const K_LINK: usize = 7;
 pub const K_ATT: usize = 8;
-pub const KIND_NAMES: [&str; NK] = ["Va", "Vb", "Sec", "Blob", "Imm", "Once", "Per", "Link", "Att"];
+pub const K_OWN: usize = 9;
+pub const KIND_NAMES: [&str; NK] = ["Va", "Vb", "Sec", "Blob", "Imm", "Once", "Per", "Link", "Att", "Own"];
 /// Period of `Per`.
 pub const PERIOD: u32 = 2;
 
@@ -119,6 +130,7 @@ pub fn get_kind(e: &EntityRef, k: usize) -> Option<Val> {
         K_PER => e.get::<Per>().map(|c| Val::U(c.0)),
         K_LINK => e.get::<Link>().map(|c| Val::E(c.0)),
         K_ATT => e.get::<AttachedTo>().map(|c| Val::E(c.0)),
+        K_OWN => e.get::<OwnedBy>().map(|c| Val::E(c.0)),
         _ => unreachable!(),
     }
 }
@@ -134,6 +146,7 @@ pub fn has_kind(e: &EntityRef, k: usize) -> bool {
         K_PER => e.contains::<Per>(),
         K_LINK => e.contains::<Link>(),
         K_ATT => e.contains::<AttachedTo>(),
+        K_OWN => e.contains::<OwnedBy>(),
         _ => unreachable!(),
     }
 }
@@ -167,6 +180,7 @@ pub fn insert_kind(e: &mut EntityWorldMut, k: usize, v: Val) {
         (K_PER, Val::U(u)) => e.insert(Per(u)),
         (K_LINK, Val::E(t)) => e.insert(Link(t)),
         (K_ATT, Val::E(t)) => e.insert(AttachedTo(t)),
+        (K_OWN, Val::E(t)) => e.insert(OwnedBy(t)),
         (k, v) => panic!("harness bug: kind {k} with value {v:?}"),
     };
 }
@@ -198,6 +212,14 @@ pub fn mutate_kind(e: &mut EntityWorldMut, k: usize, v: Val) -> bool {
                 false
             }
         }
+        (K_OWN, Val::E(t)) => {
+            if e.contains::<OwnedBy>() {
+                e.insert(OwnedBy(t));
+                true
+            } else {
+                false
+            }
+        }
         (k, v) => panic!("harness bug: kind {k} with value {v:?}"),
     }
 }
@@ -213,6 +235,7 @@ pub fn remove_kind(e: &mut EntityWorldMut, k: usize) {
         K_PER => e.remove::<Per>(),
         K_LINK => e.remove::<Link>(),
         K_ATT => e.remove::<AttachedTo>(),
+        K_OWN => e.remove::<OwnedBy>(),
         _ => unreachable!(),
     };
 }
@@ -251,11 +274,13 @@ pub struct CMap {
 #[derive(Event, Serialize, Deserialize, Clone, Debug)]
 pub struct CTrig(pub u32);
 
-pub const S_KINDS: [&str; 6] = ["SEv", "SEvU", "SInd", "SMap", "STrig", "SIndTrig"];
+/// "SEvTrig": the type `SEv` is registered a second time, as an independent trigger (one Rust type,
+/// two registrations with different dependence on replication).
+pub const S_KINDS: [&str; 7] = ["SEv", "SEvU", "SInd", "SMap", "STrig", "SIndTrig", "SEvTrig"];
 pub const C_KINDS: [&str; 4] = ["CEv", "CEvU", "CMap", "CTrig"];
 
 pub fn s_kind_independent(kind: &str) -> bool {
-    kind == "SInd" || kind == "SIndTrig"
+    kind == "SInd" || kind == "SIndTrig" || kind == "SEvTrig"
 }
 
 /// One observation made by game-logic level readers/observers inside an app (in `Last`).
@@ -415,7 +440,8 @@ pub fn mk_app(cfg: &Cfg, role: Role) -> App {
         .replicate_once::<Once>()
         .replicate_periodic::<Per>(PERIOD)
         .replicate::<Link>()
-        .replicate::<AttachedTo>();
+        .replicate::<AttachedTo>()
+        .replicate::<OwnedBy>();
 
     if cfg.events {
         app.add_server_event::<SEv>(Channel::Ordered)
@@ -431,6 +457,7 @@ pub fn mk_app(cfg: &Cfg, role: Role) -> App {
         if variant != Some(4) {
             app.make_trigger_independent::<SIndTrig>();
         }
+        app.add_server_trigger::<SEv>(Channel::Ordered).make_trigger_independent::<SEv>();
         app
             .add_client_event::<CEv>(Channel::Ordered)
             .add_client_event::<CEvU>(Channel::Unreliable)
@@ -481,6 +508,9 @@ pub fn mk_app(cfg: &Cfg, role: Role) -> App {
         })
         .add_observer(|t: Trigger<SIndTrig>, mut l: ResMut<Log>, u: Option<Res<ServerUpdateTick>>| {
             l.recs.push(Rec { kind: "SIndTrig", seq: t.event().0, ent: None, targets: vec![t.target()], utick: ut(&u), sender: None });
+        })
+        .add_observer(|t: Trigger<SEv>, mut l: ResMut<Log>, u: Option<Res<ServerUpdateTick>>| {
+            l.recs.push(Rec { kind: "SEvTrig", seq: t.event().0, ent: None, targets: vec![], utick: ut(&u), sender: None });
         })
         .add_observer(|t: Trigger<FromClient<CTrig>>, mut l: ResMut<Log>| {
             l.recs.push(Rec { kind: "CTrig", seq: t.event().event.0, ent: None, targets: vec![t.target()], utick: 0, sender: Some(t.event().client) });
